@@ -290,11 +290,15 @@ func (c c20Case) String() string {
 
 // c20World is the per-process state: baseline text and index.
 type c20World struct {
-	t       *testing.T
-	lines   []string
-	leaves  []c20Leaf
-	byPath  map[string]*c20Leaf
-	tmp     string
+	t      *testing.T
+	lines  []string
+	leaves []c20Leaf
+	byPath map[string]*c20Leaf
+	tmp    string
+
+	// restart tells build to run the restart-from-profile-cache history; it
+	// is set for the unchanged example and all single-field cases.
+	restart bool
 	confFn  string
 	geoASN  string
 	geoCtry string
@@ -542,6 +546,7 @@ func (w *c20World) eval(c c20Case) (o c20Outcome, fs []vrt.Finding) {
 				m.Path, m.Value, pos.Src),
 		})
 	}
+	w.restart = len(c.Muts) <= 1
 	w.build(conf, &o)
 	if o.Class != "accepted" {
 		// Rejected by a constructor of the start-up sequence after all.
